@@ -283,6 +283,28 @@ def shipped_records(chk):
                           dict(network=name, exception=f'{type(e).__name__}: {e}'))
             continue
         recs.append(project(name, net, oms_list))
+    # the OMS list of a network that was already used: built once, a link taken out of service, built again on the same
+    # network object (whatever an earlier build left on the elements must not reach the next one)
+    from gnpy.core.elements import Roadm
+    eq = equipment()
+    for cut in range(2 if chk.tier == 'quick' else 6):
+        net = designed_network(eq, load_network(EX / 'meshTopologyExampleV2.json', eq))[0]
+        name = f'meshTopologyExampleV2.json[rebuilt after cutting link {cut}]'
+        chk.case(('rebuild', cut))
+        try:
+            first = build_oms_list(net, eq)
+            links = sorted((o.el_id_list[0], o.el_id_list[-1]) for o in first if o.el_id_list[0] < o.el_id_list[-1])
+            a, b = links[(cut * 3) % len(links)]
+            gone = [e for o in first if {o.el_id_list[0], o.el_id_list[-1]} == {a, b} for e in o.el_list[1:-1]]
+            net.remove_nodes_from(gone)
+            if any(net.degree(n) == 0 for n in net.nodes() if isinstance(n, Roadm)):
+                continue
+            oms_list = build_oms_list(net, eq)
+        except Exception as e:                                  # noqa
+            chk.violation(f'B3|build_oms_list-raises|{type(e).__name__}|rebuilt-after-link-cut',
+                          dict(network=name, exception=f'{type(e).__name__}: {e}'))
+            continue
+        recs.append(project(name, net, oms_list))
     return recs
 
 
